@@ -722,3 +722,5 @@ def run(ctx, prog):
                     ctx.ok('C01-D8', f'{k_.key}::foreign values', 'the lookup output is compared with class positions only / guarded before index use')
     ctx.floor('dispatch alternatives cross-checked', n8, 4)
     ctx.floor('accumulator store statements judged', total_stores, 60)
+    from .. import kernelvalues as _kv
+    ctx.floor('kernel value cases interpreted', _kv.clause(ctx, prog, 'C01-D9', ('partitioned', 'template')), 20)
